@@ -8,10 +8,10 @@ exec 9>/verif/_build/lock; flock 9
 /venv/bin/python ../translator/gen.py $T/src gen/Gen.v 2>&1 | grep frag_ | cut -c1-160
 coqc -Q . Curies gen/Gen.v 2>&1 | tail -2
 res=""
-for g in base uri curie all std mixed shacl epm jsonld index merge rewire ctor triples; do
+for g in base uri curie all std mixed shacl epm jsonld index merge rewire ctor triples init w3c; do
   if timeout 600 coqc -Q . Curies gen/FragObl_$g.v > /tmp/fragtry_$g.log 2>&1; then res="$res $g:ok"; else res="$res $g:BROKEN($(grep -o 'line [0-9]*' /tmp/fragtry_$g.log | head -1))"; fi
 done
 echo "$(basename $(dirname $P)):$res"
 /venv/bin/python ../translator/gen.py /repo/src gen/Gen.v >/dev/null 2>&1
-coqc -Q . Curies gen/Gen.v; for g in base uri curie all std mixed shacl epm jsonld index merge rewire ctor triples; do coqc -Q . Curies gen/FragObl_$g.v >/dev/null 2>&1 || echo "RESTORE FAILED $g"; done
+coqc -Q . Curies gen/Gen.v; for g in base uri curie all std mixed shacl epm jsonld index merge rewire ctor triples init w3c; do coqc -Q . Curies gen/FragObl_$g.v >/dev/null 2>&1 || echo "RESTORE FAILED $g"; done
 rm -rf $T
